@@ -4,8 +4,8 @@
 
 static std::vector<Prop> props() {
     return {
-        Prop("hist_cpr", run_history<KCpr>, 1000, 10000, 100, 25, {1}, 2, 8),
-        Prop("hist_schur", run_history<KSchur>, 500, 5000, 100, 25, {1}, 2, 8),
+        Prop("hist_cpr", run_history<KCpr>, 1000, 10000, 100, 10, {1}, 2, 8),
+        Prop("hist_schur", run_history<KSchur>, 500, 5000, 100, 10, {1}, 2, 8),
     };
 }
 static std::vector<Enum> enums() { return {}; }
